@@ -158,7 +158,7 @@ int main(int argc, char **argv) {
       PoolShape sh; SimConfig cfg; g_run_index = i; g_death_run = i;
       derive(base, i, sh, cfg, pcg);
       cfg.keep_log = true;
-      g_spec = shape_spec(sh) + "," + sched_spec(cfg);
+      g_spec = shape_spec(sh) + "," + sched_spec(cfg); death_info_update();
       printf("{\"begin\":%llu}\n", (unsigned long long)i); fflush(stdout);
       RunOut o = run_pool(sh, cfg);
       emit(o);
@@ -177,7 +177,7 @@ int main(int argc, char **argv) {
       g_run_seed = spec_u(m, "runseed", 0);
     }
     cfg.keep_log = true;
-    g_spec = shape_spec(sh) + "," + sched_spec(cfg);
+    g_spec = shape_spec(sh) + "," + sched_spec(cfg); death_info_update();
     RunOut o = run_pool(sh, cfg);
     print_log(stdout);
     emit(o);
